@@ -6,6 +6,7 @@ import (
 	"math"
 	"strings"
 
+	"github.com/go-json-experiment/json/internal/jsonflags"
 	"github.com/go-json-experiment/json/internal/zzverif/vrt"
 	"github.com/go-json-experiment/json/jsontext"
 )
@@ -149,4 +150,57 @@ func VerifC20CallOptionEncoder() {
 		}
 	}
 	vrt.Cover("drained")
+}
+
+// ---------------------------------------------------------------------------------------------
+// C20: termination under the v1 error semantics, where a conversion error does not stop the
+// unmarshaling of an array: every element must still be consumed exactly once. A
+// caller-supplied function for the element type counts how often an element is offered and,
+// should that exceed the number of elements by far, ends the call with a syntactic-class
+// error (the only kind that is fatal under these semantics), so that the native run terminates.
+// ---------------------------------------------------------------------------------------------
+
+type zz20Str interface{ String() string }
+
+var zz20ErrLoop = errors.New("zz20: the same element was offered again and again")
+
+// VerifC20LegacyElementsConsumed: target kinds: 0 a slice of a non-empty interface type (nil
+// elements cannot be filled: an error per element), 1 a slice of int8 fed with strings, 2 a
+// map[string]int8 fed with a string value, 3 [2]bool fed with numbers.
+func VerifC20LegacyElementsConsumed(kind int) {
+	doc := vrt.Template("doc", `[?,"x",?]`)
+	if kind == 2 {
+		doc = vrt.Template("doc", `{"a":?,"b":"x","c":?}`)
+	}
+	n := 0
+	count := func() error {
+		n++
+		if n > 40 {
+			return &jsontext.SyntacticError{Err: zz20ErrLoop}
+		}
+		return errors.ErrUnsupported
+	}
+	legacy := jsonflags.ReportErrorsWithLegacySemantics | 1
+	var err error
+	switch kind {
+	case 0:
+		var v []zz20Str
+		err = Unmarshal(doc, &v, legacy, WithUnmarshalers(UnmarshalFromFunc(func(*jsontext.Decoder, *zz20Str) error { return count() })))
+	case 1:
+		var v []int8
+		err = Unmarshal(doc, &v, legacy, WithUnmarshalers(UnmarshalFromFunc(func(*jsontext.Decoder, *int8) error { return count() })))
+	case 2:
+		var v map[string]int8
+		err = Unmarshal(doc, &v, legacy, WithUnmarshalers(UnmarshalFromFunc(func(*jsontext.Decoder, *int8) error { return count() })))
+	default:
+		var v [2]bool
+		err = Unmarshal(doc, &v, legacy, WithUnmarshalers(UnmarshalFromFunc(func(*jsontext.Decoder, *bool) error { return count() })))
+	}
+	vrt.Observe("offered", n)
+	vrt.Assert("C20/legacy/each-element-offered-at-most-once", n <= 3 && !errors.Is(err, zz20ErrLoop))
+	if err != nil {
+		vrt.Cover("error")
+	} else {
+		vrt.Cover("accepted")
+	}
 }
